@@ -7,6 +7,7 @@ use crate::solver::{Solve, Solver};
 use crate::state::{Constraint, FiniteDomain, SResult, State};
 use crate::stream::Stream;
 use crate::user::User;
+use std::ops::RangeInclusive;
 use std::rc::Rc;
 
 #[derive(Derivative)]
@@ -89,6 +90,7 @@ where
 {
     fn run(self: Rc<Self>, state: State<U, E>) -> SResult<U, E> {
         let smap = state.get_smap();
+        let bindings_before = smap.len();
         let dstore = state.get_dstore();
 
         let uwalk = smap.walk(&self.u);
@@ -144,40 +146,70 @@ where
                 let vmax = vdomain.max();
                 let wmin = wdomain.min();
                 let wmax = wdomain.max();
-                // The constraint is: u * v = w  <=>  u = w / v  <=>  v = w / u
+                // The constraint is: u * v = w
                 //
-                // Given domains for u and v, we can then deduce that the domain of w must be
-                // in range [umin - vmax .. umax + vmin]. The constraining domain is built and
-                // intersected with the current domain of w in .process_domain()-call.
-                //
-                // Same application of constraining domain is done for the other two variables.
-                //   w = u * v  =>  [umin * vmin .. umax * vmax]
-                //   u = w / v  =>  [wmin / vmax .. wmax / vmin]
-                //   v = w / u  =>  [wmin / umax .. wmax / umin]
+                // The domains are treated as intervals which may contain zero and negative
+                // values:
+                //   w = u * v  =>  w is between the smallest and the largest of the four
+                //                  products of the bounds of u and v.
+                //   u = w / v  =>  if v cannot be zero, u is between the smallest and the
+                //                  largest of the four quotients of the bounds of w and v,
+                //                  rounded outwards. If v can be zero, nothing is deduced.
+                //   v = w / u  =>  likewise.
                 //
                 // The constraint is not dropped until all variables converge into numbers.
-                Ok(state
-                    .process_domain(
-                        &wwalk,
-                        Rc::new(FiniteDomain::from(
-                            umin.saturating_mul(vmin)..=umax.saturating_mul(vmax),
-                        )),
-                    )?
-                    .process_domain(
-                        &uwalk,
-                        Rc::new(FiniteDomain::from(
-                            wmin.checked_div(vmax).unwrap_or(umin)
-                                ..=wmax.checked_div(vmin).unwrap_or(umax),
-                        )),
-                    )?
-                    .process_domain(
-                        &vwalk,
-                        Rc::new(FiniteDomain::from(
-                            wmin.checked_div(umax).unwrap_or(vmin)
-                                ..=wmax.checked_div(umin).unwrap_or(vmax),
-                        )),
-                    )?
-                    .with_constraint(self))
+                fn product_bounds(a: (isize, isize), b: (isize, isize)) -> RangeInclusive<isize> {
+                    let products = [
+                        a.0.saturating_mul(b.0),
+                        a.0.saturating_mul(b.1),
+                        a.1.saturating_mul(b.0),
+                        a.1.saturating_mul(b.1),
+                    ];
+                    let min = products.iter().copied().min().unwrap();
+                    let max = products.iter().copied().max().unwrap();
+                    min..=max
+                }
+
+                fn quotient_bounds(
+                    w: (isize, isize),
+                    d: (isize, isize),
+                ) -> Option<RangeInclusive<isize>> {
+                    if d.0 <= 0 && d.1 >= 0 {
+                        // The divisor may be zero: no bounds can be deduced
+                        return None;
+                    }
+                    let mut min = isize::MAX;
+                    let mut max = isize::MIN;
+                    for n in [w.0, w.1].iter() {
+                        for m in [d.0, d.1].iter() {
+                            let q = n.checked_div_euclid(*m).unwrap_or(isize::MAX);
+                            let r = n.checked_rem_euclid(*m).unwrap_or(0);
+                            // Round outwards: floor for the lower and ceiling for the upper bound
+                            let (floor, ceil) = if r == 0 {
+                                (q, q)
+                            } else if *m > 0 {
+                                (q, q.saturating_add(1))
+                            } else {
+                                (q.saturating_sub(1), q)
+                            };
+                            min = std::cmp::min(min, floor);
+                            max = std::cmp::max(max, ceil);
+                        }
+                    }
+                    Some(min..=max)
+                }
+
+                let mut state = state.process_domain(
+                    &wwalk,
+                    Rc::new(FiniteDomain::from(product_bounds((umin, umax), (vmin, vmax)))),
+                )?;
+                if let Some(bounds) = quotient_bounds((wmin, wmax), (vmin, vmax)) {
+                    state = state.process_domain(&uwalk, Rc::new(FiniteDomain::from(bounds)))?;
+                }
+                if let Some(bounds) = quotient_bounds((wmin, wmax), (umin, umax)) {
+                    state = state.process_domain(&vwalk, Rc::new(FiniteDomain::from(bounds)))?;
+                }
+                state.keep_constraint(self, bindings_before)
             }
             // If all operators do not yet have domains, then keep the constraint until it can
             // be used to constrain some domains.
